@@ -79,7 +79,11 @@ func classifySetMethod(fn *ssa.Function) setEffect {
 		return e
 	}
 	oc := newOrig(fn)
-	fromRecv := func(v ssa.Value) bool {
+	var fromRecvD func(v ssa.Value, d int) bool
+	fromRecvD = func(v ssa.Value, d int) bool {
+		if d > 4 {
+			return false
+		}
 		o := oc.of(v)
 		if o.hasParam(0) {
 			return true
@@ -88,8 +92,25 @@ func classifySetMethod(fn *ssa.Function) setEffect {
 		if a, ok := loadAddr(v); ok && len(fn.Params) > 0 && a == ssa.Value(fn.Params[0]) {
 			return true
 		}
+		// a local that holds the receiver's map: a value stored into *s, or a φ of such values
+		// (m := *s; if m == nil { m = make(...); *s = m })
+		if len(fn.Params) > 0 {
+			for _, r := range referrersOf(v) {
+				if st, ok := r.(*ssa.Store); ok && st.Val == v && st.Addr == ssa.Value(fn.Params[0]) {
+					return true
+				}
+			}
+		}
+		if ph, ok := v.(*ssa.Phi); ok {
+			for _, e := range ph.Edges {
+				if fromRecvD(e, d+1) {
+					return true
+				}
+			}
+		}
 		return false
 	}
+	fromRecv := func(v ssa.Value) bool { return fromRecvD(v, 0) }
 	allInstrs(fn, func(in ssa.Instruction) {
 		switch x := in.(type) {
 		case *ssa.MapUpdate:
@@ -662,7 +683,7 @@ func runC19(c *Ctx) {
 				return
 			}
 			mul, ok := ret.Results[0].(*ssa.BinOp)
-			if !ok || mul.Op != token.MUL {
+			if !ok || (mul.Op != token.MUL && mul.Op != token.SHL) {
 				return
 			}
 			isLen := func(v ssa.Value) bool {
@@ -691,8 +712,22 @@ func runC19(c *Ctx) {
 				_, f := loadedField(call.Call.Args[0])
 				return f != nil && sameField(f, m.pF)
 			}
-			if (isLen(mul.X) && isPow(mul.Y)) || (isLen(mul.Y) && isPow(mul.X)) {
+			if mul.Op == token.MUL && ((isLen(mul.X) && isPow(mul.Y)) || (isLen(mul.Y) && isPow(mul.X))) {
 				okC = true
+			}
+			// Len << LeadingZeros64(p): the same product written as a shift
+			if mul.Op == token.SHL && isLen(mul.X) {
+				y := mul.Y
+				if cv, ok := y.(*ssa.Convert); ok {
+					y = cv.X
+				}
+				if call, ok := y.(*ssa.Call); ok {
+					if cal := call.Call.StaticCallee(); cal != nil && cal.Name() == "LeadingZeros64" {
+						if _, f := loadedField(call.Call.Args[0]); f != nil && sameField(f, m.pF) {
+							okC = true
+						}
+					}
+				}
 			}
 		})
 		c.judge(okC, "R-P-MONOTONE", "distinct.(*Counter).Count:formula", cnt.Pos(), "Count = Len × (1 << LeadingZeros64(p))", "Count is not Len times 2^LeadingZeros64(p)")
